@@ -9,6 +9,7 @@ import json, os, re, shutil, subprocess, sys, time
 from concurrent.futures import ThreadPoolExecutor
 
 VERIF = "/verif"
+CHECK_ROOT = os.environ.get("PCV_CHECK_ROOT", VERIF)   # run the checks from a snapshot of /verif so that edits in /verif do not disturb a long run
 PY = "/venv/bin/python"
 EXTRA_CHECKS = {"C08b-m1": ["C01"], "C14b-m2": ["C15", "C07"], "C01-m1": ["C09"], "C01-m2": ["C03"], "C08-m1": ["C14"], "C19-m1": ["C07"], "C05-m1": ["C17"], "C12-m2": ["C10"], "C03-m1": ["C06", "C14"],
                 "C06-m1": ["C14", "C03"], "C14-m1": ["C06"], "C14-m2": ["C08"], "C04-m2": ["C07"], "C07-m1": ["C04"], "C13-m2": []}
@@ -50,7 +51,7 @@ def confirm(name, src, patch):
         meta["checks"] = {}
         for chk in [pid] + EXTRA_CHECKS.get(name, []):
             e2 = dict(os.environ, PCV_REPO=wt, PCV_BUILD_DIR=bd, PCV_EVIDENCE_DIR=os.path.join(bd, "evidence"), PCV_REPLAY_DIR=os.path.join(bd, "replays"), VERIF_TIER="quick")
-            rc_k, out_k = sh([os.path.join(VERIF, "check"), chk, "--tier", "quick"], cwd=VERIF, env=e2, timeout=3000)
+            rc_k, out_k = sh([os.path.join(CHECK_ROOT, "check"), chk, "--tier", "quick"], cwd=CHECK_ROOT, env=e2, timeout=3000)
             lines = [l[:260] for l in out_k.splitlines() if l.startswith(("VIOLATION", "MACHINERY", "OK property", "KNOWN-FINDING"))]
             meta["checks"][chk] = {"exit": rc_k, "detected": rc_k == 1, "lines": lines[:4]}
         return meta
@@ -71,7 +72,21 @@ def main():
                     adapted = "/tmp/seed/adapted/%s.diff" % name
                     todo.append((name, src, adapted if os.path.exists(adapted) else os.path.join(src, "patch.diff")))
     only = sys.argv[1:]
-    if only:
+    if only == ["--all"]:
+        only = []
+        force_all = True
+    else:
+        force_all = False
+    if force_all:
+        for t in todo:
+            srcd = os.path.join(VERIF, "seeded", t[0])
+        # use the kept copies under /verif/seeded as the source of truth when /tmp/seed is gone
+        todo = []
+        for nm in sorted(os.listdir(os.path.join(VERIF, "seeded"))):
+            d = os.path.join(VERIF, "seeded", nm)
+            if os.path.exists(os.path.join(d, "patch.diff")):
+                todo.append((nm, d, os.path.join(d, "patch.diff")))
+    elif only:
         todo = [t for t in todo if t[0] in only or t[0].split("-")[0] in only]
     else:
         todo = [t for t in todo if not os.path.exists(os.path.join(VERIF, "seeded", t[0], "meta.json"))]
@@ -86,10 +101,17 @@ def main():
             dst = os.path.join(VERIF, "seeded", name)
             if ok:
                 os.makedirs(dst, exist_ok=True)
-                shutil.copy(patch, os.path.join(dst, "patch.diff"))
+                if os.path.abspath(patch) != os.path.abspath(os.path.join(dst, "patch.diff")):
+                    shutil.copy(patch, os.path.join(dst, "patch.diff"))
                 for fn in ("demo.py", "notes.md"):
-                    if os.path.exists(os.path.join(src, fn)):
+                    if os.path.exists(os.path.join(src, fn)) and os.path.abspath(src) != os.path.abspath(dst):
                         shutil.copy(os.path.join(src, fn), os.path.join(dst, fn))
+                old = {}
+                if os.path.exists(os.path.join(dst, "meta.json")):
+                    old = json.load(open(os.path.join(dst, "meta.json")))
+                for k_ in ("needs", "breaks", "ran"):
+                    if k_ in old:
+                        meta[k_] = old[k_]
                 json.dump(meta, open(os.path.join(dst, "meta.json"), "w"), indent=1)
             det = {k: v["detected"] for k, v in meta.get("checks", {}).items()}
             print(name, "KEPT" if ok else "NOT-KEPT", "applies=%s" % meta.get("applies"), "demo=%s" % meta.get("demo", {}).get("exit_with_change"), "/%s" % meta.get("demo", {}).get("exit_without_change"),
